@@ -22,8 +22,8 @@
                       process; procs = [{seed, res, name, hash, b64}] the same configuration built in other
                       interpreter processes (different PYTHONHASHSEED)
    kind = "distinct"  {scope, names, hashes, b64s}    names / hashes of a set of pairwise different configurations
-   kind = "space"     {scope, res, n_items, n_distinct_names, n_distinct_hashes, n_spec, n_missing, n_extra,
-                       n_invalid, n_unstable}
+   kind = "space"     {scope, res, n_items, n_distinct_names, n_hashed, n_distinct_hashes, n_spec, n_missing, n_extra,
+                       n_invalid, n_unstable}      (n_hashed = members whose hash() was taken: all in thorough, every 4th in quick)
                       counts over a whole enumerated scope ("full" = get_all_tokenizers(), "AOP"/"AOTP" = one
                       prompt-sequencer class): the driver counts (the sets are too large for TLC), n_missing /
                       n_extra compare the real name set with the product composed from the names TLC emitted
@@ -55,13 +55,13 @@ EnumClauses(r) ==
     \cup Flag(ns \subseteq spec, "enum_extra_config")
     \cup Flag(n = Card(K), "space_size_not_predicted")
     \cup Flag(Len(r.cfgs) = n /\ \A i \in 1..Len(r.cfgs) : r.cfgs[i] \in RawOf(K), "config_outside_parameter_space")
-    \cup Flag(\A i \in 1..Len(r.cfgs) : r.cfgs[i] \in RawOf(K) => r.cfgs[i] \in SpaceOf(K), "enum_invalid_config")
+    \cup Flag(\A i \in 1..Len(r.cfgs) : r.cfgs[i] \in RawOf(K) => ValidOf(K, r.cfgs[i]), "enum_invalid_config")
     \cup Flag(\A i \in 1..Len(r.cfgs) : (i <= n /\ r.cfgs[i] \in RawOf(K)) => r.names[i] = NameOf(K, r.cfgs[i]), "name_differs_from_grammar")
     \cup Flag(Distinct(r.hashes), "M:element_hash_collision")
 
 RawClauses(r) ==
   IF r.cfg \notin RawOf(r.K) THEN {"config_outside_parameter_space"}
-  ELSE LET v == r.cfg \in SpaceOf(r.K) IN
+  ELSE LET v == ValidOf(r.K, r.cfg) IN
     Flag(r.valid = TF(v), "validity_rule_differs")
     \cup Flag(r.in_enum => v, "enum_invalid_config")
     \cup Flag(v => r.in_enum, "enum_missing_valid_config")
@@ -93,10 +93,11 @@ DistinctClauses(r) ==
   \cup Flag(Distinct(r.hashes) /\ Distinct(r.b64s), "hash_collision")
 
 SpaceClauses(r) ==
-  IF r.res # "ok" THEN {"enumeration_raises"}
+  IF r.res = "skipped" THEN {"space_size_not_predicted"}    \* the family enumerations alone already give a product > 3*10^7
+  ELSE IF r.res # "ok" THEN {"enumeration_raises"}
   ELSE Flag(r.n_items = PredictedScope(r.scope), "space_size_not_predicted")
        \cup Flag(r.n_distinct_names = r.n_items, "duplicate_names")
-       \cup Flag(r.n_distinct_hashes = r.n_items, "hash_collision")
+       \cup Flag(r.n_distinct_hashes = r.n_hashed /\ r.n_hashed >= 1 /\ r.n_hashed <= r.n_items, "hash_collision")
        \cup Flag(r.n_missing <= 0, "enum_missing_valid_config")
        \cup Flag(r.n_extra <= 0, "enum_extra_config")
        \cup Flag(r.n_invalid <= 0, "enum_invalid_config")
